@@ -292,7 +292,7 @@ mod n {
         let t = c.of(&TILTS);
         let tenv = c.flag();
         let m = c.of(&[1.0f32, 2.5]);
-        let a = c.of(&[0.004f32, 12.34]);
+        let a = c.of(&[0.004f32, 0.05, 12.34]);
         let u = c.of(&[None, Some(0.2f32)]);
         let ov = c.of(&[None, Some(0.5f32)]);
         wallp(b, t, tenv, m, a, u, ov)
@@ -303,7 +303,7 @@ mod n {
     fn n_c08_kdata_walls() {
         drive(
             "C08.kdata.walls",
-            "KData::from(&EnergyProps): 2 walls, each over 4 boundary kinds x 3 tilts x in/out of envelope x multiplier {1,2.5} x net area {0.004,12.34} x computed U {none,0.2} x override {none,0.5}; one window on wall 0; 2 fixed bridges",
+            "KData::from(&EnergyProps): 2 walls, each over 4 boundary kinds x 3 tilts x in/out of envelope x multiplier {1,2.5} x net area {0.004,0.05,12.34} x computed U {none,0.2} x override {none,0.5}; one window on wall 0; 2 fixed bridges",
             |c| {
                 let w0 = any_wall(c);
                 let w1 = any_wall(c);
@@ -1096,6 +1096,49 @@ mod n {
             }
             c.nontrivial(zname.to_string());
             c.sample(|| format!("{}: lat {:?}", zname, meta.as_ref().map(|m| m.latitude)));
+        });
+    }
+
+    // C20: for the zone whose weather file is shipped (D3) the embedded monthly table equals what the radiation model
+    // computes from that file, to table precision; every hour is computed with the calendar day number of its date
+    #[test]
+    fn n_c20_weather_table() {
+        let met = climate::met::parsemet(include_str!(concat!(env!("CARGO_MANIFEST_DIR"), "/../climate/src/zonaD3.met"))).expect("weather file parses");
+        drive("C20.weather_table", "climate/src/zonaD3.met (8760 hours): 9 orientation classes x 12 months: monthly beam / diffuse sums of period_radiation_for_surface vs MONTHLYRADDATA (zone D3); hour-by-hour day-number consistency", |c| {
+            use crate::climatedata::{ClimateZone, MONTHLYRADDATA};
+            let k = c.pick(climate::ORIENTATIONS.len());
+            let (tilt, az, name) = climate::ORIENTATIONS[k];
+            c.note(format!("orientation {} (tilt {}, azimuth {})", name, tilt, az));
+            c.check("C20.weather.hours", met.data.len() == 8760, || format!("{} hours in the weather file", met.data.len()));
+            let rows = climate::period_radiation_for_surface(&met.data, met.meta.latitude, tilt, az, 0.2);
+            // hour by hour: the calendar day number of the date is what the model must use
+            let mut bad = 0;
+            let mut first = String::new();
+            for (d, r) in met.data.iter().zip(rows.iter()) {
+                let want = climate::radiation_for_surface(climate::nday_from_md(d.month, d.day), d.hour, climate::SolarRadiation { dir: d.rdirhor, dif: d.rdifhor }, met.meta.latitude, tilt, az, 0.2);
+                if !(approx(r.dir, want.dir, 1e-5, 1e-4) && approx(r.dif, want.dif, 1e-5, 1e-4)) {
+                    bad += 1;
+                    if first.is_empty() {
+                        first = format!("month {} day {} hour {}: {:?} want {:?}", d.month, d.day, d.hour, (r.dir, r.dif), (want.dir, want.dif));
+                    }
+                }
+            }
+            c.check("C20.weather.day_number", bad == 0, || format!("{} of 8760 hours differ; first: {}", bad, first));
+            let orient = Orientation::from(name);
+            let table = MONTHLYRADDATA.lock().unwrap().iter().find(|r| r.zone == ClimateZone::D3 && r.orientation == orient).cloned();
+            match table {
+                None => c.check("C20.weather.table_row", false, || format!("no D3 row for {}", name)),
+                Some(t) => {
+                    for m in 1..=12u32 {
+                        let dir: f32 = rows.iter().filter(|r| r.month == m).map(|r| r.dir).sum::<f32>() / 1000.0;
+                        let dif: f32 = rows.iter().filter(|r| r.month == m).map(|r| r.dif).sum::<f32>() / 1000.0;
+                        let (td, tf) = (t.dir[(m - 1) as usize], t.dif[(m - 1) as usize]);
+                        c.check("C20.weather.table", (dir - td).abs() <= 0.0075 && (dif - tf).abs() <= 0.0075, || format!("{} month {}: model {:.3} / {:.3} table {} / {}", name, m, dir, dif, td, tf));
+                    }
+                }
+            }
+            c.nontrivial(name.to_string());
+            c.sample(|| format!("{}: {} hourly rows", name, rows.len()));
         });
     }
 }
